@@ -9,6 +9,7 @@ import (
 	"runtime/debug"
 	"runtime/pprof"
 	"sort"
+	"strconv"
 	"strings"
 
 	"github.com/youchainhq/go-youchain/common"
@@ -575,6 +576,188 @@ func (rn *runner) stateful(h *twinT, tw *twinT, idem bool) {
 	}
 }
 
+// ---- long-lived engine over evolving validator sets ----------------------------------------------------------------
+// Verification is a pure function of (header, look-back data): what ONE long-lived engine verified under an earlier
+// validator set must not matter for a later header. Here a main address is RE-REGISTERED with another BLS key
+// (withdrawn completely and created again — the only way to replace a BLS key): on one engine, in an order drawn from
+// the seed, a header under the old registration, an honest header under the new registration (signed with the new
+// keys: must be accepted) and a forged header under the new registration whose re-registered voters' signatures are
+// made with their OLD keys (must be rejected). Every verdict is compared with the fresh engine's (which evaluate()
+// has compared with the model and judged with the oracle).
+
+func reRegister(r *vh.RNG, w *world) (*world, int) {
+	d := &world{keys: w.keys, outsider: w.outsider}
+	for _, s := range w.specs {
+		c := *s
+		d.specs = append(d.specs, &c)
+	}
+	// re-register the heaviest online chamber members (their votes decide the quorum), sometimes one more
+	var cand []*valSpec
+	for _, s := range d.specs {
+		if s.online && s.kind() == int(params.KindChamber) && !s.badBls && !s.badMain {
+			cand = append(cand, s)
+		}
+	}
+	sort.SliceStable(cand, func(a, b int) bool { return cand[a].stake > cand[b].stake })
+	n := 0
+	for i, s := range cand {
+		if i < 2 || r.Chance(20) {
+			s.blsKey = newKey(r, s.key.id+1000)
+			n++
+		}
+	}
+	return d, n
+}
+
+type llCase struct {
+	c     *caseT
+	x     *concrete
+	lines []string
+	fresh string
+	name  string
+}
+
+func (rn *runner) longLived(w *world, cp params.CaravelParams) {
+	res := rn.c.Res
+	r := rn.c.R
+	wR, n := reRegister(r, w)
+	if n == 0 {
+		return
+	}
+	n1 := uint64(r.Range(1, 3000))
+	h1 := honestCase(r, w, cp, n1)
+	h2 := honestCase(r, wR, cp, n1+uint64(r.Range(1, 1500)))
+	if h1 == nil || h2 == nil {
+		return
+	}
+	f := h2.clone()
+	forged := 0
+	for k := range f.uc.atoms {
+		for _, s := range wR.specs {
+			if s.blsKey != nil && f.uc.atoms[k].key == s.blsKey {
+				f.uc.atoms[k].key = s.key // the OLD BLS key signs
+				forged++
+			}
+		}
+	}
+	if forged == 0 {
+		return
+	}
+	h1.muts = []string{"old-registration"}
+	h2.muts = []string{"re-registered-bls-key"}
+	f.muts = []string{"re-registered-voter-signs-with-old-bls-key"}
+	var cs []*llCase
+	for _, c := range []*caseT{h1, h2, f} {
+		c.entry = "side"
+		t := c.realise(r)
+		lines, fresh := rn.evaluate(c, t, false)
+		cs = append(cs, &llCase{c: c, x: c.concrete(), lines: lines, fresh: fresh, name: c.muts[0]})
+	}
+	res.Dist("class:re-registration")
+	orders := [][]int{{0, 2, 1}}
+	perm := []int{0, 1, 2}
+	for i := 2; i > 0; i-- {
+		j := r.Intn(i + 1)
+		perm[i], perm[j] = perm[j], perm[i]
+	}
+	orders = append(orders, perm, []int{0, 1, 2, 0, 2})
+	for _, ord := range orders {
+		srv := newServer()
+		var steps []string
+		var got, want []string
+		bad := -1
+		for i, k := range ord {
+			e := usableEntry(cs[k].x, allEntries[r.Intn(len(allEntries))])
+			g := goVerifyOn(srv, cs[k].x, e)
+			fr := cs[k].fresh
+			if e != "side" {
+				fr = goVerifyOn(newServer(), cs[k].x, e)
+			}
+			steps = append(steps, fmt.Sprintf("%d %s", k, e))
+			got, want = append(got, g), append(want, fr)
+			if g != fr && bad < 0 {
+				bad = i
+			}
+		}
+		res.Dist("long-lived-sequence")
+		res.TracesVsImpl++
+		res.Count(fmt.Sprintf("ll %v %s", steps, strings.Join(cs[2].lines, "\n")), true)
+		if bad < 0 {
+			continue
+		}
+		var parts []string
+		for i, k := range ord {
+			parts = append(parts, fmt.Sprintf("%s -> %s (fresh engine: %s)", cs[k].name, got[i], want[i]))
+		}
+		what := "one long-lived engine, validator set re-registered in between: the verdict depends on what the engine verified before: " + strings.Join(parts, "; ")
+		if w, _ := oracle(parseSym(cs[ord[bad]].lines), got[bad]); w != "" {
+			what += "; " + w
+		}
+		var body []string
+		for k, c := range cs {
+			for _, l := range replayBody(c.c, c.lines) {
+				body = append(body, fmt.Sprintf("C%d %s", k, l))
+			}
+		}
+		for _, st := range steps {
+			body = append(body, "Q "+st)
+		}
+		rn.nrep++
+		rp := vh.WriteReplay(rn.c.ReplayDir, "C01", fmt.Sprintf("longlived-%d", rn.nrep), rn.c.Seed, []string{"oracle: " + what}, body)
+		res.Fail("oracle", "", what, rp)
+		res.Dist("oracle:engine-history")
+	}
+}
+
+// replayLongLived re-runs a multi-header sequence (C<k> sections + Q steps) on one engine.
+func replayLongLived(body []string) (bool, string, bool) {
+	secs := map[int][]string{}
+	var steps [][2]string
+	for _, l := range body {
+		f := strings.SplitN(l, " ", 2)
+		if len(f) == 2 && len(f[0]) >= 2 && f[0][0] == 'C' {
+			if k, err := strconv.Atoi(f[0][1:]); err == nil {
+				secs[k] = append(secs[k], f[1])
+				continue
+			}
+		}
+		if g := strings.Fields(l); len(g) == 3 && g[0] == "Q" {
+			steps = append(steps, [2]string{g[1], g[2]})
+		}
+	}
+	if len(secs) == 0 || len(steps) == 0 {
+		return false, "", false
+	}
+	xs := map[int]*concrete{}
+	for k, b := range secs {
+		x, _, err := concreteFromReplay(b)
+		if err != nil {
+			return false, "unreadable section: " + err.Error(), true
+		}
+		xs[k] = x
+	}
+	srv := newServer()
+	fails := false
+	var parts []string
+	for _, st := range steps {
+		k, _ := strconv.Atoi(st[0])
+		x := xs[k]
+		if x == nil {
+			continue
+		}
+		g := goVerifyOn(srv, x, st[1])
+		fr := goVerifyOn(newServer(), x, st[1])
+		if g != fr {
+			fails = true
+		}
+		parts = append(parts, fmt.Sprintf("header %d via %s -> %s (fresh engine: %s)", k, st[1], g, fr))
+	}
+	if fails {
+		return true, "the verdict depends on what the long-lived engine verified before: " + strings.Join(parts, "; "), true
+	}
+	return false, "engine history does not matter: " + strings.Join(parts, "; "), true
+}
+
 func min(a, b int) int {
 	if a < b {
 		return a
@@ -732,6 +915,9 @@ func run(c *vh.Ctx) error {
 			w.specs[c.R.Intn(n)].badMain = true
 		}
 		res.Dist(fmt.Sprintf("set-size-%02d", n))
+		if c.R.Chance(70) {
+			rn.longLived(w, protoCP(c.R))
+		}
 		for hi := 0; hi < perWorld && rn.derr == nil; hi++ {
 			cp := protoCP(c.R)
 			number := uint64(c.R.Range(1, 5000))
@@ -882,6 +1068,9 @@ func run(c *vh.Ctx) error {
 }
 
 func replayWith(rn *runner, body, comments []string) (bool, string) {
+	if still, what, ok := replayLongLived(body); ok {
+		return still, what
+	}
 	x, lines, err := concreteFromReplay(body)
 	if err != nil {
 		// OverThreshold-only replay
